@@ -277,8 +277,9 @@ def build_dirk():
     return out
 
 
-def run_driver(scenarios, wd, tag="drv", timeout=600, target="dirkdrv", env=None, allow_exit=(0,)):
-    """Run the child driver on a list of scenarios; returns (events, returncode)."""
+def run_driver(scenarios, wd, tag="drv", timeout=600, target="dirkdrv", env=None, allow_exit=(0,), dirk=None):
+    """Run the child driver on a list of scenarios; returns (events, returncode).  dirk: path of the real dirk binary - the scenarios
+    are then run against the shipped program over TLS (signing ops, restart = SIGKILL + new process, kill_after_us)."""
     exe = build_harness(target)
     sf = os.path.join(wd, tag + ".scenarios.json")
     of = os.path.join(wd, tag + ".trace.ndjson")
@@ -289,7 +290,7 @@ def run_driver(scenarios, wd, tag="drv", timeout=600, target="dirkdrv", env=None
     if env:
         e.update(env)
     try:
-        p = subprocess.run([exe, "-scenarios", sf, "-out", of], cwd=wd, env=e, stdout=subprocess.PIPE,
+        p = subprocess.run([exe, "-scenarios", sf, "-out", of] + (["-dirk", dirk] if dirk else []), cwd=wd, env=e, stdout=subprocess.PIPE,
                            stderr=subprocess.PIPE, text=True, timeout=timeout)
         rc, err = p.returncode, p.stderr
     except subprocess.TimeoutExpired:
@@ -319,6 +320,22 @@ def run_driver_parallel(scenarios, wd, tag="drv", nproc=4, timeout=600, target="
     chunks = [scenarios[i:i + size] for i in range(0, len(scenarios), size)]
     with ThreadPoolExecutor(len(chunks)) as ex:
         res = list(ex.map(lambda ic: run_driver(ic[1], wd, tag="%s_%d" % (tag, ic[0]), timeout=timeout, target=target), enumerate(chunks)))
+    events, rc, err = [], 0, ""
+    for ev, r, e in res:
+        events += ev
+        if r != 0 and rc == 0:
+            rc, err = r, e
+    return events, rc, err
+
+
+def run_driver_parallel_bin(scenarios, wd, dirk, nproc=6, timeout=900):
+    """Scenarios against the real dirk binary, spread over several driver processes (each scenario starts its own dirk)."""
+    from concurrent.futures import ThreadPoolExecutor
+    build_harness("dirkdrv")
+    nproc = max(1, min(nproc, len(scenarios)))
+    chunks = [scenarios[i::nproc] for i in range(nproc)]
+    with ThreadPoolExecutor(len(chunks)) as ex:
+        res = list(ex.map(lambda ic: run_driver(ic[1], wd, tag="bin_%d" % ic[0], timeout=timeout, dirk=dirk), enumerate(chunks)))
     events, rc, err = [], 0, ""
     for ev, r, e in res:
         events += ev
